@@ -44,3 +44,10 @@ add('C08', 'Hypothesis generated reactions over mixed species classes + referenc
     'caller\'s dictionaries. Exploration only.',
     'Trusted: each species getter (judged by C01/C02); tolerance 1e-10 of the sum of |nu X|; over/underflowing K and q cases are skipped and counted.',
     'DESIGN.md 3/C08')
+add('C09', 'Hypothesis generated reactions / BEP relations / site configurations + recomputation oracles (max-clamp from unclamped getters, BEP relation typed in the harness, log-scaling of A)',
+    'ChemkinReaction and SurfaceReaction activation H and G (dimensionless and in five units, both directions) are compared with max(0, TS barrier, reaction change) recomputed from a '
+    'plain Reaction; BEP transition states with all 8 descriptors are compared with the relation itself, with fwd-rev = dH/dE, with the barrier obtained through the TS enthalpy and '
+    'with equal U/H offsets; pre-exponential factors are checked by the entropy and partition-function routes and by site-density scaling A(s*sigma)=A(sigma)*s^(1-n) for both reaction '
+    'classes, four site-density operations and four unit systems. Exploration only.',
+    'Trusted: unclamped Reaction getters (C08), constants (C12); gas+bulk-only reactions (no surface reactant, not gas phase) are outside the generated domain.',
+    'DESIGN.md 3/C09')
